@@ -604,6 +604,8 @@ pub fn float_weights(f32_: bool, n: usize) -> BoxedStrategy<Vec<i128>> {
         3 => proptest::collection::vec(0u32..64, n).prop_map(move |v| v.into_iter().map(|k| enc(k as f64 * 0.25)).collect::<Vec<_>>()),
         2 => proptest::collection::vec((-10i32..11, any::<u16>()), n).prop_map(move |v| v.into_iter().map(|(e, m)| enc((1.0 + m as f64 / 65536.0) * 2f64.powi(e))).collect::<Vec<_>>()),
         1 => Just(vec![enc(1.0); n]),
+        // uniformly tiny weights (the result must not depend on the scale of the weights)
+        1 => (proptest::collection::vec(1u32..64, n), 40i32..90).prop_map(move |(v, e)| v.into_iter().map(|k| enc(k as f64 * 2f64.powi(-e))).collect::<Vec<_>>()),
         // explicit classes for zero weights at the first / middle / last position
         2 => (proptest::collection::vec(1u32..40, n), 0usize..4).prop_map(move |(v, pos)| {
             let n = v.len();
